@@ -25,7 +25,7 @@ Definition show_triple (x : tid * N * N) : list byte :=
 Definition show_returned (l : list (tid * N * N)) : list byte := join (S_ "OK" :: map show_triple l).
 
 Definition push_group (cur : option (list N)) (acc : list (list N)) : list (list N) :=
-  match cur with None => acc | Some l => rev l :: acc end.
+  match cur with None => acc | Some l => rev_append l [] :: acc end.
 
 (* the T groups up to the S / O marker: (config in DTN ms, true for O, remaining tokens) *)
 Fixpoint parse_threads (toks : list tok) (cur : option (list N)) (acc : list (list N))
@@ -34,8 +34,8 @@ Fixpoint parse_threads (toks : list tok) (cur : option (list N)) (acc : list (li
   | [] => None
   | t :: rest =>
       if tok_is t "T" then parse_threads rest (Some []) (push_group cur acc)
-      else if tok_is t "S" then Some (rev (push_group cur acc), false, rest)
-      else if tok_is t "O" then Some (rev (push_group cur acc), true, rest)
+      else if tok_is t "S" then Some (rev_append (push_group cur acc) [], false, rest)
+      else if tok_is t "O" then Some (rev_append (push_group cur acc) [], true, rest)
       else match cur, get_N t with
            | Some l, Some r =>
                if (MS1970_TO2K <=? r) && (r <? two64)
@@ -72,10 +72,15 @@ Definition parse_sched (args : list tok) : option (config * bool * list tid) :=
   | [] => None
   end.
 
+(* run_all with the linear list reversal (Coq's List.rev is quadratic: a burst of 66000 calls took minutes); equal to run_all *)
+Definition run_all_fast (cfg : config) (sched : list tid) : list (tid * N * N) :=
+  map ret_triple (rev_append (g_out (exec (init_from None cfg) (sched ++ drain cfg))) []).
+Lemma run_all_fast_eq cfg sched : run_all_fast cfg sched = run_all cfg sched.
+Proof. unfold run_all_fast, run_all, run, run_from, trace_from. rewrite rev_append_rev, app_nil_r. reflexivity. Qed.
 Definition run_sched (args : list tok) : list byte :=
   match parse_sched args with
   | Some (cfg, whole, entries) =>
-      show_returned (run_all cfg (if whole then non_overlapping entries else entries))
+      show_returned (run_all_fast cfg (if whole then non_overlapping entries else entries))
   | None => bad_case
   end.
 
